@@ -11,6 +11,7 @@ import (
 	"time"
 
 	"veriftxn/common"
+	_ "veriftxn/unibk"
 
 	"github.com/tikv/client-go/v2/verifrt/ev"
 	"github.com/tikv/client-go/v2/verifrt/sched"
@@ -37,7 +38,7 @@ func main() {
 	for _, bk := range common.Backends() {
 		for _, m := range bk.Modes {
 			for _, sh := range common.Shapes(run.Thorough()) {
-				if sh.Pess != m.Pessimistic {
+				if sh.Pess != m.Pessimistic || (sh.LockOnlyPrimary && bk.Name == "unistore") {
 					continue
 				}
 				for _, lo := range common.Layouts(run.Thorough()) {
